@@ -201,7 +201,7 @@ def codec_direct(ctx, m, name='x'):
 
 # ------------------------------------------------------------------------------ correspondence
 
-def correspondence(ctx, gen_ok):
+def correspondence(ctx, gen_ok, ho_ok=True):
     import skfem
     from skfem.generic_utils import OrientedBoundary
     rng = np_seed(ctx, 17)
@@ -270,7 +270,7 @@ def correspondence(ctx, gen_ok):
         sub_cases.append((f'({cnat(nt)}, {cnats(s)})', f'({cNs(ind)}, {cnats(np.asarray(sd["s"]))})', ('sub', name, kk)))
     # to_dict / from_dict at the level of the tag dictionaries
     def cstr(x):
-        assert x.isidentifier()
+        assert '"' not in x and x.isascii()
         return f'"{x}"%string'
     for k in range(ctx.n(12, 40)):
         m = rand_mesh1(FIRST[k % 4], rng, size=[2, 2] if k % 4 < 2 else [2, 2, 2])
@@ -287,6 +287,29 @@ def correspondence(ctx, gen_ok):
                + clist([f'({cstr(n)}, {cbools(v)})' for n, v in d.get('orientations', {}).items()]) + ', '
                + clist([f'({cstr(n)}, {tagterm(b)})' for n, b in M.boundaries.items()]) + ')')
         dict_cases.append((inp, out, ('dict', len(bnd), sum(getattr(b, 'ori', None) is not None for b in bnd.values()))))
+    # high-order reordering of __post_init__: canonical second-order meshes whose nodes are renumbered at random
+    ho_cases = []
+    import skfem
+    for k in range(ctx.n(12, 48)):
+        name = ['MeshTri2', 'MeshQuad2', 'MeshTet2', 'MeshHex2'][k % 4]
+        base = rand_mesh1(SECOND[name], rng, size=[2, 2] if k % 4 < 2 else [2, 2, 2], integer=True, holes=False)
+        cls = getattr(skfem, name)
+        m2 = cls.from_mesh(base)
+        N = m2.p.shape[1]
+        perm = rng.permutation(N)                       # external number of canonical node v is perm[v]
+        pe = np.empty_like(m2.p)
+        pe[:, perm] = m2.p
+        te = perm[m2.dofs.element_dofs]
+        Mx = cls(pe, te)
+        Mrows = cls.elem.refdom.nnodes
+        p2 = clist([clist([cz(int(round(2 * x))) for x in col]) for col in pe.T.tolist()])
+        d2 = clist([clist([cz(int(round(2 * x))) for x in col]) for col in Mx.p.T.tolist()])
+        ho_cases.append((f'({cnat(Mrows)}, {cnat(te.shape[1])}, {p2}, {cmat_nat(te)}, {cmat_nat(Mx.dofs.element_dofs[Mrows:])})',
+                         f'({cmat_nat(Mx.t)}, {d2})', ('postinit', name, N)))
+        # every local node of every cell keeps its coordinates (the vertex numbers follow the order of the external ones)
+        if not np.array_equal(Mx.p[:, Mx.dofs.element_dofs], m2.p[:, m2.dofs.element_dofs]):
+            ctx.fail(f'postinit-geometry:{name}', 'a second-order mesh given with renumbered nodes does not keep the '
+                     'coordinates of its local nodes', {'mesh': mesh_json(m2), 'perm': perm.tolist()})
     if not gen_ok:
         return
     imp = ('Require Import Model.C17_TagCodec Gen.C17Gen.\nFrom Coq Require Import List Arith Bool ZArith NArith.')
@@ -318,8 +341,15 @@ Definition sub (c : nat * list nat) : list N * list nat :=
         lambda: ctx.corr('to_dict_from_dict', imp + '\nFrom Coq Require String.', 'dict_rt', 'dict_out_eqb', dict_cases,
                          defs='Import String.\n' + defs, nontrivial=lambda r: r[2] >= 1),
     ]
+    if ho_ok:
+        jobs.append(lambda: ctx.corr(
+            'postinit_high_order', 'Require Import Model.C18_Surgery Model.C17_HighOrder Gen.C17GenHO.\n'
+            'From Coq Require Import List Arith Bool ZArith.', 'postinit', '(pair_eqb natss_eqb (list_eqb zs_eqb))', ho_cases,
+            defs='Definition postinit (c : nat * nat * list (list Z) * mat nat * mat nat) : mat nat * list (list Z) :=\n'
+                 "  let '(M, nc, p, t, eh) := c in (gen_hi_t M t, gen_hi_doflocs [] M nc p t eh).\n",
+            nontrivial=lambda r: r[2] >= 9))
     from concurrent.futures import ThreadPoolExecutor
-    with ThreadPoolExecutor(len(jobs)) as ex:          # the coqc runs are independent processes
+    with ThreadPoolExecutor(4) as ex:                  # the coqc runs are independent processes
         list(ex.map(lambda j: j(), jobs))
 
 
@@ -369,8 +399,41 @@ def one_roundtrip(ctx, m, fmt, rng, codec_ok):
         ctx.fail(key, msg, {'mesh': mesh_json(m), 'format': fmt, 'difference': [what, detail]})
 
 
+def empty_tags_then_restrict(ctx, rng):
+    """an empty named boundary / subdomain must survive dict and JSON as an index array: restrict afterwards works"""
+    import skfem
+    from skfem.io.json import from_file, to_file
+    for name in FIRST:
+        m = rand_mesh1(name, rng, integer=True)
+        m = m.with_boundaries({'none': np.array([], dtype=np.int32), 'some': m.boundary_facets()[:2]}) \
+             .with_subdomains({'void': np.array([], dtype=np.int32)})
+        for fmt in ('dict', 'json'):
+            try:
+                if fmt == 'dict':
+                    M = type(m).from_dict(m.to_dict())
+                else:
+                    with tempfile.TemporaryDirectory(prefix='c17_') as d:
+                        to_file(m, os.path.join(d, 'm.json'))
+                        M = from_file(os.path.join(d, 'm.json'))
+                kinds = {k: np.asarray(v).dtype.kind for k, v in list(M.boundaries.items()) + list(M.subdomains.items())}
+                if any(k not in 'iu' for k in kinds.values()):
+                    ctx.fail(f'tag-dtype:{fmt}:{name}', f'{fmt} round trip turns an empty tag into a non-integer array '
+                             f'({kinds})', {'mesh': mesh_json(m), 'format': fmt})
+                R = M.restrict(np.arange(max(1, M.t.shape[1] // 2)))
+                if sorted(R.boundaries) != ['none', 'some'] or len(R.boundaries['none']) != 0:
+                    ctx.fail(f'restrict-after:{fmt}:{name}', 'restrict after a round trip loses the empty tag',
+                             {'mesh': mesh_json(m), 'format': fmt})
+            except Exception as e:                        # noqa: BLE001
+                import traceback
+                ctx.fail(f'exception:restrict-after-{fmt}:{name}', f'restrict after a {fmt} round trip of a {name} with an '
+                         f'empty tag raises {type(e).__name__}: {e}',
+                         {'mesh': mesh_json(m), 'format': fmt, 'traceback': traceback.format_exc()[-1200:]})
+            ctx.count(('empty-tags', fmt, name), nontrivial=True)
+
+
 def oracle(ctx):
     rng = np_seed(ctx, 71)
+    empty_tags_then_restrict(ctx, rng)
     fmts = ['meshio', 'gmsh22', 'gmsh41', 'vtk', 'vtu', 'npz', 'dict', 'json', 'vtu-ascii']
     if not ctx.quick():
         fmts.append('vtk-ascii')
@@ -446,12 +509,18 @@ def run(ctx):
     for name, err in errors:
         ctx.broke('translator', 'c17_translate: ' + name, err)
     ctx.write_gen('C17Gen', txt)
+    try:
+        ctx.write_gen('C17GenHO', T.translate_highorder())
+        ho_ok = True
+    except TranslateError as e:
+        ctx.broke('translator', 'c17_translate: mesh.py: __post_init__ (high order), element DOF locations', e)
+        ho_ok = False
     ctx.extra['type_mesh_mapping'] = tm
     gen_ok = not errors
-    ctx.compile_dyn(['gen/C17Gen.v'] + ctx.copy_dyn())
+    ctx.compile_dyn(['gen/C17Gen.v'] + (['gen/C17GenHO.v'] if ho_ok else []) + ctx.copy_dyn())
     ctx.prove()
     try:
-        correspondence(ctx, gen_ok)
+        correspondence(ctx, gen_ok, ho_ok)
     except Exception as e:      # noqa: BLE001 — the implementation raised while the cases were generated: the oracle
         import traceback        # below looks for the concrete input; the tie is reported as broken in any case
         ctx.broke('correspondence', f'case generation raised {type(e).__name__}', traceback.format_exc())
